@@ -145,7 +145,7 @@ func level1() {
 						if s.typ == "discovery" && s.refresh != "off" && n == 2 {
 							l1overlap(kind, s, all, H, L)
 						}
-						for hist := 0; hist < 4; hist++ {
+						for hist := 0; hist < 5; hist++ {
 							for _, native := range []string{"m1", "Mx-7B"} {
 								l1cell(kind, s, all, H, L, hist, native)
 							}
@@ -211,12 +211,34 @@ func l1cell(kind string, s strat, all []*domain.Endpoint, H, L, hist int, M stri
 				final = nil
 				hdesc = append(hdesc, e.Name+":with-then-empty")
 			}
+		case 4: // like 3, but the endpoint used to list the model under another spelling of its name (the unifier merges the
+			// spellings into one model), and now lists only the other model
+			if L&(1<<uint(i)) == 0 {
+				alt := strings.ToUpper(M)
+				if alt == M {
+					alt = strings.ToLower(M)
+				}
+				reg.RegisterModels(ctx, e.URLString, []*domain.ModelInfo{mi(alt), mi("other")})
+				if kind == "unified" {
+					waitAttributed(reg, e.URLString, true)
+				}
+				hdesc = append(hdesc, e.Name+":other-spelling-then-without")
+			}
 		case 2: // listed, removed, then final
 			reg.RegisterModels(ctx, e.URLString, with)
 			reg.RemoveEndpoint(ctx, e.URLString)
 			hdesc = append(hdesc, e.Name+":with,remove,final")
 		}
 		reg.RegisterModels(ctx, e.URLString, final)
+	}
+	if kind == "unified" && hist >= 3 {
+		// the runs that drop an endpoint from the models it stopped listing are asynchronous: wait for them (an
+		// attribution that never goes away is then judged below, not waited for any longer than the horizon)
+		for i, e := range all {
+			if L&(1<<uint(i)) == 0 {
+				waitAttributed(reg, e.URLString, false)
+			}
+		}
 	}
 	if kind == "unified" {
 		// let asynchronous unification settle (judged by C10; here we only wait)
@@ -287,6 +309,32 @@ func l1cell(kind string, s strat, all []*domain.Endpoint, H, L, hist int, M stri
 			res.Violate("rejected-without-decision", wit, cell, rp)
 		}
 	}
+}
+
+// waitAttributed waits (300 ms at most) until the unified view does (want) or does not attribute a model other than
+// "other" to the endpoint.
+func waitAttributed(reg any, url string, want bool) {
+	um, ok := reg.(interface {
+		GetUnifiedModels(context.Context) ([]*domain.UnifiedModel, error)
+	})
+	if !ok {
+		return
+	}
+	stack.Eventually(300*time.Millisecond, func() bool {
+		ms, _ := um.GetUnifiedModels(ctx)
+		has := false
+		for _, m := range ms {
+			if m.ID == "other" {
+				continue
+			}
+			for _, se := range m.SourceEndpoints {
+				if se.EndpointURL == url {
+					has = true
+				}
+			}
+		}
+		return has == want
+	})
 }
 
 // l1overlap: two requests for the same model arrive while a refresh of the first is still going on (the discovery
@@ -574,7 +622,7 @@ func main() {
 	}
 	res.Info["bounds"] = map[string]any{"strategies": sn, "endpoints_L1": "1..3", "endpoints_L2": map[string]string{"quick": "2", "thorough": "2..3"}[report.Tier],
 		"spellings_L1": []string{"m1 (exact)", "M1", "m1:latest", "zz-unknown"}, "spellings_L2": []string{"m1", "Mx-7B (as listed)", "zz-unknown"},
-		"histories_L1": []string{"final listing only", "opposite listing then final", "listed, endpoint removed, final", "listed, then an empty listing"}, "routes_L2": []string{"proxy", "provider(openai)", "anthropic(translation)"}}
+		"histories_L1": []string{"final listing only", "opposite listing then final", "listed, endpoint removed, final", "listed, then an empty listing", "listed under another spelling of the name, then without it"}, "routes_L2": []string{"proxy", "provider(openai)", "anthropic(translation)"}}
 	res.Info["rule"] = "states = distinct (configuration, healthy set, listing set, spelling, outcome) tuples; each is one call of the real GetRoutableEndpointsForModel (L1) or one request through the booted olla (L2)"
 	res.Assume("asynchronous unification is given time to settle before routing is judged (its correctness is C10's subject)")
 	res.Finish()
